@@ -197,29 +197,29 @@ def arrayTextElement (field : String) (sys : Sys) (v : Rat) (unitsText : String)
 
 /-! ### Coarse-graining index maps (`check_index_map_validity`) -/
 
-def listMax : List Int → Int
+def v_listMax : List Int → Int
   | [] => 0
   | a :: r => r.foldl max a
-def listMin : List Int → Int
+def v_listMin : List Int → Int
   | [] => 0
   | a :: r => r.foldl min a
 
 /-- environment-consistency loop: `envOut` maps an output node to the environment seen first -/
-def envLoop : List (Int × Int) → List (Int × Int) → Bool
+def v_envLoop : List (Int × Int) → List (Int × Int) → Bool
   | [], _ => true
   | (m, e) :: r, envOut =>
-    if m == -1 then envLoop r envOut
+    if m == -1 then v_envLoop r envOut
     else match envOut.lookup m with
-      | none => envLoop r ((m, e) :: envOut)
-      | some e0 => if e0 == e then envLoop r envOut else false
+      | none => v_envLoop r ((m, e) :: envOut)
+      | some e0 => if e0 == e then v_envLoop r envOut else false
 
 /-- `check_index_map_validity(im, space)` for a map of Python ints (`im` non-empty is implied by a space of size ≥ 1) -/
-def checkIndexMap (im : List Int) (env : List Int) : Res Unit :=
+def vCheckIndexMap (im : List Int) (env : List Int) : Res Unit :=
   if im.length != env.length then .error .badValue
   else if im.isEmpty then .error .badValue             -- `max([])` raises
-  else if listMin im < -1 then .error .badValue
-  else if listMax im < 0 then .error .badValue
-  else if (List.range (listMax im).toNat).any (fun i => !im.contains (i : Int)) then .error .badValue
-  else if envLoop (im.zip env) [] then .ok () else .error .badValue
+  else if v_listMin im < -1 then .error .badValue
+  else if v_listMax im < 0 then .error .badValue
+  else if (List.range (v_listMax im).toNat).any (fun i => !im.contains (i : Int)) then .error .badValue
+  else if v_envLoop (im.zip env) [] then .ok () else .error .badValue
 
 end Strengths
